@@ -40,6 +40,16 @@ SEEDS = {
     "c08-3": ("C08", "breadth-first run of a member with return-mode: no-matches in its comment (forced back to matches)", ["C08"]),
     "c09-3": ("C09", "a member whose valid and completed differ (stops without failing / fails but runs to the end): manifest completed copies valid", ["C09"]),
     "c10-3": ("C10", "a reused instance whose later run starts in a later second (named after its first run's second), with another instance's run in between", ["C10"]),
+    "c11-3": ("C11", "add(n, srcA) then add(n, srcB) with byte-identical content and different source base names", ["C11"]),
+    "c12-3": ("C12", ":to / :from used with the identity of the group's FIRST member (index 0 treated as not found)", ["C12"]),
+    "c13-3": ("C13", "skip() as the FINAL component firing on a line that an earlier component declined, with a following scanned line", ["C13"]),
+    "c14-3": ("C14", "increase and decrease both on the variable (no latch), x set, later y greater than x", ["C14"]),
+    "c15-3": ("C15", "an outer comment with a stray colon (no word before it) followed by a word and a later key: value field", ["C15"]),
+    "c16-3": ("C16", "print.once with a second argument naming a printer stream, on a file with more than one line", ["C16"]),
+    "c17-3": ("C17", "a quoted header whose name contains a dot", ["C17"]),
+    "c18-3": ("C18", "breadth-first method + raise policy abort + group of >= 2 members (only member 0 saved)", ["C18"]),
+    "c19-3": ("C19", "CsvPaths-managed run on a file with blank records observing the data-line total (total_lines, percent)", ["C19"]),
+    "c20-3": ("C20", "referenced group with >= 2 members assigning the same variable name and ending with different values", ["C20"]),
     "c02-1": ("C02", "lone reversed range whose low bound is 0 ([3-0]) with record 0 non-blank and a later non-blank record in range", ["C02"]),
     "c03-1": ("C03", "first() on a value first seen on line 0 that re-appears later; scan must include line 0", ["C03"]),
     "c05-1": ("C05", "validation-mode whose FIRST token is no-stop, a non-raising error, and at least one more line after it", ["C05"]),
